@@ -317,7 +317,7 @@ Lemma fs_mkdirall_eq fixed fuel s path :
   fs_mkdirall fixed fuel s path =
   match srv_stat s (skey path) with
   | Some (true, _) => (s, ROk)
-  | Some (false, _) => (s, if fixed then RErr eFail else ROk)
+  | Some (false, _) => (s, if fixed then RErr (EW KENOTDIR) else ROk)
   | None =>
       match parent_of path with
       | None => mk_finish s path
@@ -453,14 +453,14 @@ Proof.
     pose proof (fs_mkdir_objs s p) as H. destruct (fs_mkdir s p) as [s' r]. cbn in *.
     rewrite H. destruct r; reflexivity.
   - (* MkdirAll *)
-    pose proof (fs_mkdirall_objs false (S (length p)) s p) as H.
-    destruct (fs_mkdirall false (S (length p)) s p) as [s' r]. cbn in *.
+    pose proof (fs_mkdirall_objs (Z.eqb sftp_mkdirall_enotdir 1) (S (length p)) s p) as H.
+    destruct (fs_mkdirall (Z.eqb sftp_mkdirall_enotdir 1) (S (length p)) s p) as [s' r]. cbn in *.
     rewrite H. destruct r; reflexivity.
   - (* Open *)
     destruct (c_open s p o_rdonly true) as [[s' f]|e] eqn:E; cbn; [|reflexivity].
     eapply c_open_rdonly_objs; eauto.
   - (* OpenFile *)
-    destruct (c_open s p flag false) as [[s' f]|e] eqn:E; cbn; [|reflexivity].
+    destruct (c_open s p flag (Z.eqb sftp_openfile_client 1)) as [[s' f]|e] eqn:E; cbn; [|reflexivity].
     apply c_open_ok in E. destruct E as (E1 & _ & _ & _ & E).
     rewrite (srv_setstat_none_after _ _ _ E1). cbn. exact E.
   - (* Remove *)
@@ -670,10 +670,10 @@ Proof.
   - destruct (c_open s p create_flags true) as [[s' g]|e]; cbn [fst snd sst_slots]; [|(cbn; apply Hkeep)].
     exists f. rewrite slot_get_bind by exact Hnr. auto.
   - destruct (fs_mkdir s p) as [s' r]; cbn. destruct r; (cbn; apply Hkeep).
-  - destruct (fs_mkdirall false (S (length p)) s p) as [s' r]; cbn. destruct r; (cbn; apply Hkeep).
+  - destruct (fs_mkdirall (Z.eqb sftp_mkdirall_enotdir 1) (S (length p)) s p) as [s' r]; cbn. destruct r; (cbn; apply Hkeep).
   - destruct (c_open s p o_rdonly true) as [[s' g]|e]; cbn [fst snd sst_slots]; [|(cbn; apply Hkeep)].
     exists f. rewrite slot_get_bind by exact Hnr. auto.
-  - destruct (c_open s p flag false) as [[s' g]|e]; cbn [fst snd sst_slots]; [|(cbn; apply Hkeep)].
+  - destruct (c_open s p flag (Z.eqb sftp_openfile_client 1)) as [[s' g]|e]; cbn [fst snd sst_slots]; [|(cbn; apply Hkeep)].
     destruct (srv_setstat s' (sf_key g) None); cbn [fst snd sst_slots]; [|(cbn; apply Hkeep)].
     exists f. rewrite slot_get_bind by exact Hnr. auto.
   - destruct (fs_remove s p) as [s' r]; cbn. destruct r; (cbn; apply Hkeep).
@@ -1065,9 +1065,9 @@ Proof.
   destruct o; unfold sftp_step; cbn [fst snd sst_srv sst_slots].
   - destruct (c_open s p create_flags true) as [[s' f]|e] eqn:E; cbn; [|exact Hwf]. eapply c_open_wf; eauto.
   - pose proof (fs_mkdir_wf s p Hwf) as H. destruct (fs_mkdir s p); exact H.
-  - pose proof (fs_mkdirall_wf false (S (length p)) s p Hwf) as H. destruct (fs_mkdirall _ _ s p); exact H.
+  - pose proof (fs_mkdirall_wf (Z.eqb sftp_mkdirall_enotdir 1) (S (length p)) s p Hwf) as H. destruct (fs_mkdirall _ _ s p); exact H.
   - destruct (c_open s p o_rdonly true) as [[s' f]|e] eqn:E; cbn; [|exact Hwf]. eapply c_open_wf; eauto.
-  - destruct (c_open s p flag false) as [[s' f]|e] eqn:E; cbn; [|exact Hwf].
+  - destruct (c_open s p flag (Z.eqb sftp_openfile_client 1)) as [[s' f]|e] eqn:E; cbn; [|exact Hwf].
     pose proof (c_open_wf _ _ _ _ _ _ Hwf E) as H1.
     destruct (srv_setstat s' (sf_key f) None) as [s''|e] eqn:E2; cbn; [|exact H1].
     now rewrite (srv_setstat_tree _ _ _ _ E2).
